@@ -4,8 +4,19 @@
     ArrangeBlock hands out the least index that is not allocated (this is what
     the hint-driven scan of the implementation amounts to, see
     proofs/C17_Blocks.v) and fails with ErrExhausted iff every index is
-    allocated; FreeBlock removes exactly the index it is given; reopening and
-    user writes into blocks do not change the set. *)
+    allocated; FreeBlock removes exactly the index it is given; user writes
+    into blocks do not change the set.
+
+    The storage under the allocator may be larger than the segments the
+    allocator was opened with (non-fit storages; [OGrow] = bts.Grow under the
+    live allocator).  The specification therefore also carries the storage
+    size and the marks recorded behind the live segments ([sp_hidden]).  Grow
+    changes the size and nothing else: the live set, count and Available stay.
+    Reopening (NewBlocks on the storage as it is now) recomputes the number of
+    segments from the size: the marks of the segments that became whole join
+    the set, no live index changes its state; with fit it fails with
+    ErrInvalid when the size is not a whole number of segments.  Without room
+    behind the live segments a reopen changes nothing. *)
 From Coq Require Import List ZArith Bool.
 From GL Require Import model.Blocks.
 Import ListNotations.
@@ -42,18 +53,37 @@ Fixpoint lowest_free (i : Z) (l : list Z) : Z :=
 
 (** * The specification machine *)
 
-Record aspec := mkSpec { sp_bs : Z; sp_segs : Z; sp_alloc : list Z }.
+Record aspec := mkSpec {
+  sp_bs : Z; sp_segs : Z;
+  sp_alloc : list Z;    (* allocated indices below the live count, ascending *)
+  sp_size : Z;          (* size of the storage in bytes *)
+  sp_hidden : list Z    (* marks behind the live count inside the storage, ascending *)
+}.
 
 Definition sp_count (s : aspec) : Z := sp_segs s * (8 * sp_bs s).
 
-Definition sp_with (s : aspec) (l : list Z) : aspec := mkSpec (sp_bs s) (sp_segs s) l.
+Definition sp_ssz (s : aspec) : Z := (8 * sp_bs s + 1) * sp_bs s.
+
+Definition sp_with (s : aspec) (l : list Z) : aspec :=
+  mkSpec (sp_bs s) (sp_segs s) l (sp_size s) (sp_hidden s).
+
+(* NewBlocks on the storage as it is now *)
+Definition sp_reopen (fit : bool) (s : aspec) : aspec * out :=
+  if fit && negb (sp_size s mod sp_ssz s =? 0) then (s, OutErr EInvalid)
+  else
+    let segs := sp_size s / sp_ssz s in
+    let cnt := segs * (8 * sp_bs s) in
+    (mkSpec (sp_bs s) segs
+       (sp_alloc s ++ filter (fun i => i <? cnt) (sp_hidden s))
+       (sp_size s)
+       (filter (fun i => cnt <=? i) (sp_hidden s)), OutOk).
 
 Definition sp_valid (s : aspec) (i : Z) : bool := (0 <=? i) && (i <? sp_count s).
 
 (* where block i lives: (i + i/(8 bs) + 1) * bs *)
 Definition sp_block_off (s : aspec) (i : Z) : Z := (i + i / (8 * sp_bs s) + 1) * sp_bs s.
 
-Definition sp_step (s : aspec) (o : op) : aspec * out :=
+Definition sp_step (fit : bool) (s : aspec) (o : op) : aspec * out :=
   match o with
   | OArrange =>
       if as_card (sp_alloc s) =? sp_count s then (s, OutErr EExhausted)
@@ -69,19 +99,28 @@ Definition sp_step (s : aspec) (o : op) : aspec * out :=
   | OPoke i k _ =>
       if sp_valid s i then (s, if (k <? 0) || (sp_bs s <=? k) then OutPanic else OutOk)
       else (s, OutErr EInvalid)
-  | OReopen => (s, OutOk)
+  | OReopen => sp_reopen fit s
   | OAvail => (s, OutN (sp_count s - as_card (sp_alloc s)))
   | OCount => (s, OutN (sp_count s))
   | OSegments => (s, OutN (sp_segs s))
+  | OGrow n =>
+      if n <? sp_size s then (s, OutErr EOther)
+      else (mkSpec (sp_bs s) (sp_segs s) (sp_alloc s) n (sp_hidden s), OutOk)
   end.
 
-Fixpoint sp_run (s : aspec) (ops : list op) : list out * aspec :=
+Fixpoint sp_run (fit : bool) (s : aspec) (ops : list op) : list out * aspec :=
   match ops with
   | [] => ([], s)
   | o :: t =>
-      let '(s', x) := sp_step s o in
-      let '(xs, sf) := sp_run s' t in (x :: xs, sf)
+      let '(s', x) := sp_step fit s o in
+      let '(xs, sf) := sp_run fit s' t in (x :: xs, sf)
   end.
 
 (* the abstraction: what a model state stands for *)
-Definition abs (b : blocks) : aspec := mkSpec (blkSize b) (segments b) (alloc_list b).
+Definition abs (b : blocks) : aspec :=
+  mkSpec (blkSize b) (segments b) (alloc_list b) (bsize (bts b)) (hidden_list b).
+
+(* the same from block size and bytes alone (an allocator just opened on them) *)
+Definition spec_of_bytes (bs : Z) (buf : buffer) : aspec :=
+  let segs := bsize buf / ((8 * bs + 1) * bs) in
+  mkSpec bs segs (alloc_of_bytes bs segs buf) (bsize buf) (hidden_of_bytes bs segs buf).
